@@ -16,6 +16,18 @@
 #define XSIMD_VERSION_MINOR 2
 #define XSIMD_VERSION_PATCH 0
 
+#ifdef XSIMD_VERIF
+// Verification hooks (off unless XSIMD_VERIF is defined): the harness names a
+// header that may define XSIMD_VERIF_LOOP_TICK, XSIMD_VERIF_CPUID and
+// XSIMD_VERIF_XGETBV.
+#ifdef XSIMD_VERIF_HOOKS_HEADER
+#include XSIMD_VERIF_HOOKS_HEADER
+#endif
+#endif
+#ifndef XSIMD_VERIF_LOOP_TICK
+#define XSIMD_VERIF_LOOP_TICK() ((void)0)
+#endif
+
 /**
  * high level free functions
  *
